@@ -393,3 +393,453 @@ class SeedPolyphase(SubCheck):
 
 
 SUBCHECKS["seed_polyphase"] = SeedPolyphase()
+
+
+# =====================================================================================================================
+# seed_phase / seed_genotype: whatshap phase / genotype with --ped (--use-ped-samples)
+# =====================================================================================================================
+PH_POS = [100, 110, 120]  # 0-based variant positions (reads of length 50 starting at 90 cover all of them)
+PH_CHROMS = ["chrA", "chrB"]
+REAL_SEEDS = ("0", "1", "2", "3", "4", "5")
+
+# role -> genotype (allele pair) at the three variants; Mendelian-consistent for every trio below
+ROLE_GT = {
+    "father": [(0, 1), (0, 1), (0, 1)],
+    "mother": [(0, 1), (0, 0), (0, 1)],
+    "child": [(0, 0), (0, 1), (0, 1)],
+    "child2": [(0, 1), (0, 0), (1, 1)],
+    "single": [(0, 1), (0, 1), (0, 0)],
+}
+# family layouts: VCF column order (deliberately not sorted), PED lines (child, father, mother), role of every sample
+LAYOUTS = {
+    "trio": dict(samples=["mum", "kid", "dad"], ped=[("kid", "dad", "mum")], roles=dict(dad="father", mum="mother", kid="child")),
+    "quartet": dict(samples=["mum", "sis", "kid", "dad"], ped=[("kid", "dad", "mum"), ("sis", "dad", "mum")], roles=dict(dad="father", mum="mother", kid="child", sis="child2")),
+    "two trios": dict(samples=["mum", "pa", "kid", "ch", "dad", "ma"], ped=[("kid", "dad", "mum"), ("ch", "pa", "ma")], roles=dict(dad="father", mum="mother", kid="child", pa="father", ma="mother", ch="child")),
+    "trio+single": dict(samples=["solo", "mum", "kid", "dad"], ped=[("kid", "dad", "mum"), ("solo", "0", "0")], roles=dict(dad="father", mum="mother", kid="child", solo="single")),
+}
+
+
+def _nh(name):
+    return sum(map(ord, name))
+
+
+class PedScenario:
+    """Concrete input of one path: VCF content, PED text, reads - used to drive the stubs of the symbolic run and to
+    materialise the files of the real run."""
+
+    def __init__(self, e, shape):
+        lay = LAYOUTS[shape["fam"]]
+        self.shape = shape
+        self.samples = list(lay["samples"])
+        self.roles = lay["roles"]
+        self.chroms = PH_CHROMS[: shape["nchrom"]]
+        self.distrust = bool(shape.get("distrust"))
+        self.ped_text = "".join("F%d %s %s %s 0 1\n" % (i, c, f, m) for i, (c, f, m) in enumerate(lay["ped"]))
+        self.trios = [t for t in lay["ped"] if t[1] != "0"]
+        # solver-chosen structure: the first child's genotype at the first variant (homozygous -> genetic-haplotyping master block)
+        self.kid_het0 = e.bit("kid_het_at_first_variant")
+        # with --distrust-genotypes: do the likelihoods of father / mother contradict their called genotype at the first variant?
+        self.pl_flip = {s: (e.bit("pl_contradicts_gt_%s" % s) if self.distrust else 0) for s in self.samples if self.roles[s] in ("father", "mother")}
+        self.gt, self.pl = {}, {}
+        for c in self.chroms:
+            for v in range(3):
+                for s in self.samples:
+                    g = ROLE_GT[self.roles[s]][v]
+                    if v == 0 and self.roles[s] == "child" and self.kid_het0:
+                        g = (0, 1)
+                    self.gt[c, v, s] = g
+                    if self.distrust:
+                        best = sum(g)
+                        if v == 0 and self.pl_flip.get(s):
+                            best = 0
+                        self.pl[c, v, s] = tuple(0 if i == best else 50 for i in range(3))
+        # reads: (name, [(variant index, allele)]) per (chromosome, sample); under distrust no read covers the first variant
+        self.reads = {}
+        for ci, c in enumerate(self.chroms):
+            for s in self.samples:
+                spans = [(1, 2)] if (self.distrust or ci == 1) else [(0, 1), (1, 2)]
+                self.reads[c, s] = [("%s_%s_r%d" % (c, s, k), [(v, (_nh(s) + k + v) % 2) for v in sp]) for k, sp in enumerate(spans)]
+
+    def key(self):
+        return repr((self.shape["fam"], self.shape["nchrom"], self.distrust, self.kid_het0, sorted(self.pl_flip.items())))
+
+    def doc(self, with_pl=True):
+        """with_pl=False: the copy handed to the writer in the symbolic run (pysam_model does not serialise Integer vectors;
+        the likelihoods reach the command through the VcfReader stand-in)"""
+        with_pl = with_pl and self.distrust
+        header = [("FORMAT", "GT", "1", "String")] + ([("FORMAT", "PL", "G", "Integer")] if with_pl else []) + [("contig", c) for c in self.chroms]
+        records = []
+        for c in self.chroms:
+            for v, pos in enumerate(PH_POS):
+                calls = []
+                for s in self.samples:
+                    call = {"GT": self.gt[c, v, s], "phased": False}
+                    if with_pl:
+                        call["PL"] = self.pl[c, v, s]
+                    calls.append(call)
+                records.append(dict(chrom=c, pos=pos + 1, id=None, ref="A", alts=("C",), qual=None, filter=[], info={}, format=["GT"] + (["PL"] if with_pl else []), calls=calls))
+        return dict(samples=list(self.samples), header=header, records=records)
+
+    def tables(self, vcf, core, with_genotypes=True):
+        out = []
+        n = len(self.samples)
+        for c in self.chroms:
+            vt = vcf.VariantTable(c, list(self.samples))
+            for v, pos in enumerate(PH_POS):
+                gts = [core.Genotype(list(self.gt[c, v, s])) if with_genotypes else core.Genotype([]) for s in self.samples]
+                gls = [vcf.GenotypeLikelihoods([x / -10 for x in self.pl[c, v, s]]) if (self.distrust and with_genotypes) else None for s in self.samples]
+                vt.add_variant(vcf.BiallelicVcfVariant(pos, "A", "C"), gts, [None] * n, gls, [None] * n)
+            out.append(vt)
+        return out
+
+    def write_real_files(self, tmp):
+        import pysam
+        from vf.models import materialise
+
+        pysam.set_verbosity(0)
+        vcf_path = materialise.write_vcf(self.doc(), os.path.join(tmp, "in.vcf"))
+        open(os.path.join(tmp, "ped.txt"), "w").write(self.ped_text)
+        hdr = pysam.AlignmentHeader.from_dict({"HD": {"VN": "1.6", "SO": "coordinate"}, "SQ": [{"SN": c, "LN": 10000} for c in self.chroms], "RG": [{"ID": "g_" + s, "SM": s} for s in self.samples]})
+        bam = os.path.join(tmp, "reads.bam")
+        with pysam.AlignmentFile(bam, "wb", header=hdr) as f:
+            for ci, c in enumerate(self.chroms):
+                for s in self.samples:
+                    for name, vs in self.reads[c, s]:
+                        seq = ["A"] * 50
+                        for v, allele in vs:
+                            seq[PH_POS[v] - 90] = "AC"[allele]
+                        a = pysam.AlignedSegment(hdr)
+                        a.query_name, a.flag, a.reference_id, a.reference_start, a.mapping_quality = name, 0, ci, 90, 60
+                        a.query_sequence = "".join(seq)
+                        a.query_qualities = pysam.qualitystring_to_array("I" * 50)
+                        a.cigartuples = [(0, 50)]
+                        a.set_tag("RG", "g_" + s)
+                        f.write(a)
+        pysam.index(bam)
+        return vcf_path, os.path.join(tmp, "ped.txt"), bam
+
+
+class _Ctx:
+    def __enter__(self):
+        return self
+
+    def __exit__(self, *a):
+        return None
+
+
+def _ped_stub_classes(core, cur):
+    """Contract stubs for the compiled pedigree solver.  `cur` is a dict holding the scenario of the running path.
+    The results are a FUNCTION of the instance (reads, positions, per-sample genotypes / likelihoods, trios), reported per
+    individual *name*: the order of add_individual calls does not influence what an individual receives (see `assumptions`)."""
+
+    class PedStub:
+        def __init__(s, nsi):
+            s.nsi = nsi
+            s.individuals = []
+            s.trios = []
+
+        def add_individual(s, sample, gts, gls=None):
+            s.individuals.append((sample, list(gts), None if gls is None else list(gls)))
+
+        def add_relationship(s, father_id, mother_id, child_id):
+            s.trios.append((father_id, mother_id, child_id))
+
+    def alleles_for(sample, pos, index, ncov):
+        if index == 0:
+            return (0, 0)
+        if index == 2:
+            return (1, 1)
+        a = (_nh(sample) + pos // 10 + ncov) % 2
+        return (a, 1 - a)
+
+    class DPStub:
+        def __init__(s, all_reads, recomb, pedigree, distrust, positions):
+            s.reads = list(all_reads)
+            s.ped = pedigree
+            s.distrust = distrust
+            s.positions = list(positions)
+
+        def get_super_reads(s):
+            inv = s.ped.nsi.inverse_mapping()
+            out = []
+            for idx, (sample, gts, gls) in enumerate(s.ped.individuals):
+                mine = [r for r in s.reads if inv[r.sample_id] == sample]
+                reads = [core.Read("superread_%d_%d" % (h, idx), -1, -1, s.ped.nsi[sample]) for h in (0, 1)]
+                for i, p in enumerate(s.positions):
+                    ncov = sum(1 for r in mine if any(v.position == p for v in r))
+                    if s.distrust:
+                        phred = list(gls[i].gl) if hasattr(gls[i], "gl") else [gls[i][g] for g in gls[i].genotypes()]
+                        called = gts[i].get_index() if not gts[i].is_none() else 0
+                        index = min(range(3), key=lambda k: (phred[k], k != called, k))
+                    else:
+                        index = sum(gts[i].as_vector())
+                    a0, a1 = alleles_for(sample, p, index, ncov)
+                    reads[0].add_variant(p, a0, 10)
+                    reads[1].add_variant(p, a1, 10)
+                rs = core.ReadSet()
+                rs.add(reads[0])
+                rs.add(reads[1])
+                out.append(rs)
+            n = len(s.positions)
+            nt = len(s.ped.trios)
+            last = sum(4**t for t in range(nt)) if nt else 0  # every trio switches both transmitted haplotypes... at the last column
+            tv = [0] * (n - 1) + [last] if n else []
+            return out, tv
+
+        def get_optimal_cost(s):
+            return 0
+
+        def get_optimal_partitioning(s):
+            return [_nh(r.name) % 2 for r in s.reads]
+
+    class GenoDPStub:
+        """GenotypeDPTable: likelihoods per (sample, position index) as a function of the individual's prior and reads."""
+
+        def __init__(s, nsi, all_reads, recomb, pedigree, positions):
+            s.reads = list(all_reads)
+            s.ped = pedigree
+            s.nsi = nsi
+            s.positions = list(positions)
+
+        def get_genotype_likelihoods(s, sample, pos_index):
+            inv = s.nsi.inverse_mapping()
+            p = s.positions[pos_index]
+            ncov = sum(1 for r in s.reads if inv[r.sample_id] == sample and any(v.position == p for v in r))
+            k = (_nh(sample) + p // 10 + ncov + len(s.ped.trios)) % 3
+            gl = [0.125, 0.125, 0.125]
+            gl[k] = 0.75
+            return core.PhredGenotypeLikelihoods(gl)
+
+    return PedStub, DPStub, GenoDPStub
+
+
+class _PedReaderStubs:
+    """VcfReader / PhasedInputReader stand-ins shared by seed_phase and seed_genotype"""
+
+    @staticmethod
+    def make(sc, vcf, core, with_genotypes=True):
+        tables = sc.tables(vcf, core, with_genotypes)
+
+        class Reader(_Ctx):
+            def __init__(s, *a, **k):
+                s.samples = list(sc.samples)
+
+            def __iter__(s):
+                return iter(tables)
+
+        class Input(_Ctx):
+            has_vcfs = False
+            has_alignments = False
+
+            def __init__(s, paths, ref, nsi, *a, **k):
+                s.nsi = nsi
+
+            def read_vcfs(s):
+                pass
+
+            def read(s, chromosome, variants, sample, read_vcf=True, **k):
+                rs = core.ReadSet()
+                offered = set(v.position for v in variants)
+                for name, vs in sc.reads[chromosome, sample]:
+                    r = core.Read(name, 60, 0, s.nsi[sample])
+                    for v, allele in vs:
+                        if PH_POS[v] in offered:
+                            r.add_variant(PH_POS[v], allele, 40)
+                    if len(r) > 0:
+                        rs.add(r)
+                return rs, set()
+
+        return Reader, Input
+
+
+def _real_cli(argv, seed, cwd):
+    env = dict(os.environ, PYTHONHASHSEED=seed, PYTHONPATH=REPO + os.pathsep + os.environ.get("PYTHONPATH", ""))
+    return subprocess.run([sys.executable, "-m", "whatshap"] + argv, stdout=subprocess.PIPE, stderr=subprocess.PIPE, text=True, env=env, cwd=cwd)
+
+
+def _strip_cmdline(text):
+    return "".join(l for l in text.splitlines(True) if not l.startswith("##commandline"))
+
+
+def _diff_kind(a, b):
+    """how two TSV texts differ: 'rows of one record permuted' (same lines, same sequence of (chromosome, position) keys),
+    'rows permuted' (same multiset of lines) or 'content'"""
+    la, lb = (a or "").splitlines(), (b or "").splitlines()
+    if sorted(la) != sorted(lb):
+        return "content"
+    key = lambda l: tuple(l.split("\t")[1:3])
+    if [key(l) for l in la] == [key(l) for l in lb]:
+        return "rows of one record permuted"
+    return "rows permuted"
+
+
+class SeedPhase(SubCheck):
+    """run_whatshap with --ped (and --use-ped-samples) under stubs; PedReader.samples() = list(set(...)) and every other
+    set of strings is iterated in a solver-chosen order."""
+
+    name = "seed_phase"
+    encoded = ["whatshap.cli.phase.run_whatshap", "setup_families", "setup_pedigree", "find_phaseable_variants", "find_mendelian_conflicts", "create_pedigree", "merge_readsets", "compute_overall_components", "find_components",
+               "ReadList", "write_recombination_list", "write_changed_genotypes", "whatshap.pedigree.PedReader (incl. samples())", "find_recombination", "UniformRecombinationCostComputer", "whatshap.graph.ComponentFinder",
+               "whatshap.vcf.PhasedVcfWriter (write, _set_PS, _remove_existing_phasing) / VariantTable"]
+    sources = ["whatshap/cli/phase.py", "whatshap/pedigree.py", "whatshap/vcf.py", "whatshap/graph.py", "whatshap/merge.py"]
+    stubs = ["VcfReader yields harness-built VariantTables (same content as the VCF handed to the writer)", "PhasedInputReader.read returns the scenario's reads of the sample restricted to the offered variants", "readselection = identity",
+             "Pedigree / PedigreeDPTable: contract stub whose super reads, transmission vector and partition are a function of the instance (reads, positions, per-sample genotypes / likelihoods, trios), reported per individual name",
+             "PhasedVcfWriter runs unchanged against vf/models/pysam_model.py (C04 validates that model); open() is an in-memory file system",
+             "set/frozenset -> vf/pysym/nondet.py (sets of str, of VcfVariants and of identity-hashed objects)",
+             "replay: the real `whatshap phase` CLI on the materialised VCF / PED / BAM under PYTHONHASHSEED 0..5 (results cached per materialised input)"]
+    assumptions = ["as seed_compare",
+                   "the compiled PedigreeDPTable gives every individual the same result whatever the order of Pedigree.add_individual calls (source argument: the column cost is a minimum over a label-independent set of allele assignments and tied alleles are reported as EQUAL_SCORES; "
+                   "observed: tests/data/trio.* phased identically under 6 hash seeds that order the family differently) - LLSym query (b) of DESIGN 4/C16 was not built",
+                   "ReadSet.sort() is a total order on (first position, name, source id): the merged read set is a function of the set of reads (src/readset.h read_comparator_t; duplicates are rejected by ReadSet.add)"]
+    required_cover = ["use-ped-samples: sample list from a set", "two families", "two trios in one family", "recombination event written", "genotype change written", "read list written", "a set was iterated in a solver-chosen order", "two chromosomes"]
+    replay_every = 1  # real results are cached per materialised input, a replay is a dictionary lookup after the first one
+    max_decisions = 200000
+
+    def shapes(self, tier):
+        S = lambda **k: dict(dict(nchrom=2, use_ped=True, distrust=False), **k)
+        out = [S(fam="trio"), S(fam="trio", distrust=True), S(fam="trio", distrust=True, use_ped=False), S(fam="quartet"), S(fam="trio+single", use_ped=False, distrust=True), S(fam="trio+single"), S(fam="two trios", nchrom=1)]
+        if tier != "quick":
+            out += [S(fam="quartet", distrust=True), S(fam="two trios", nchrom=1, distrust=True), S(fam="two trios", nchrom=2)]
+        return out
+
+    def bounds(self, tier):
+        return ("families: trio / quartet (two trios sharing the parents) / trio + unrelated single / two trios (6 samples%s); 1-2 chromosomes x 3 variants, fixed Mendelian-consistent genotypes with a solver-chosen het/hom call of the first child, "
+                "--distrust-genotypes on/off (solver-chosen: parents' likelihoods contradict the call at the first variant), --use-ped-samples on/off, 1-2 reads per sample and chromosome; "
+                "every iteration over a set of sample names (<= 6: all 720 orders) in a solver-chosen order; outputs compared: written VCF, --output-read-list, --recombination-list, --changed-genotype-list, exception" % ("" if tier == "quick" else ", also with distrust / two chromosomes"))
+
+    def setup(self):
+        from vf.models import core_model
+
+        self.core_model = core_model
+        self._real_cache = {}
+
+    def sym_impl(self):
+        return "sym"
+
+    def real_impl(self):
+        return "real"
+
+    def _load_world(self):
+        from vf.models import pysam_model as pm
+
+        core = self.core_model
+        climod = types.ModuleType("whatshap.cli")
+        climod.__path__ = []
+        climod.CommandLineError = type("CommandLineError", (Exception,), {})
+        climod.log_memory_usage = lambda *a, **k: None
+        climod.PhasedInputReader = None
+        w = SymWorld(
+            overrides={"pysam": pm, "pysam.libcbcf": pm, "whatshap.core": core, "whatshap.cli": climod, "whatshap.readselect": types.SimpleNamespace(readselection=lambda rs, cov, preferred_source_ids=None, bridging=True: set(range(len(rs))))},
+            shadows=nondet.shadows(),
+            transformer=nondet.transformer,
+        )
+        return dict(pm=pm, phase=w.load("whatshap.cli.phase"), vcf=w.load("whatshap.vcf"), ped=w.load("whatshap.pedigree"), world=w)
+
+    def harness(self, e, shape, impl):
+        sc = PedScenario(e, shape)
+        if shape["use_ped"]:
+            e.cover("use-ped-samples: sample list from a set")
+        if shape["fam"] in ("two trios", "trio+single"):
+            e.cover("two families")
+        if shape["fam"] == "quartet":
+            e.cover("two trios in one family")
+        if shape["nchrom"] == 2:
+            e.cover("two chromosomes")
+        if impl == "real":
+            return self.run_real(e, shape, sc)
+        if not hasattr(self, "_world"):
+            self._world = self._load_world()
+        W = self._world
+        pm, phase, vcf, pedmod, core = W["pm"], W["phase"], W["vcf"], W["ped"], self.core_model
+        cur = {}
+        PedStub, DPStub, _ = _ped_stub_classes(core, cur)
+        Reader, Input = _PedReaderStubs.make(sc, vcf, core)
+        phase.VcfReader, phase.PhasedInputReader, phase.Pedigree, phase.PedigreeDPTable = Reader, Input, PedStub, DPStub
+        nondet.EXTRA_SENSITIVE[:] = [lambda x: hasattr(x, "reference_allele"), nondet.id_hashed]
+
+        def run(hook):
+            fs = MemFS()
+            fs.files["ped.txt"] = sc.ped_text
+            ped_open = lambda path, *a, **k: io.StringIO(fs.files[str(path)])
+            phase.__dict__["__builtins__"]["open"] = fs.open
+            pedmod.open = ped_open  # module global shadows the builtin for PedReader only
+            pm.FS.clear()
+            pm.FS["in.vcf"] = sc.doc(with_pl=False)
+            sink = pm.MemFile()
+            nondet.ORDER_HOOK = hook
+            exc = None
+            try:
+                phase.run_whatshap(phase_input_files=["reads.bam"], variant_file="in.vcf", output=sink, ped="ped.txt", use_ped_samples=shape["use_ped"], distrust_genotypes=sc.distrust,
+                                   read_list_filename="reads.tsv", gtchange_list_filename="gtchanges.tsv", recombination_list_filename="recomb.tsv", write_command_line_header=False)
+            except Exception as ex:
+                exc = "%s: %s" % (type(ex).__name__, ex)
+            finally:
+                nondet.ORDER_HOOK = None
+            res = dict(fs.files)
+            res.pop("ped.txt", None)
+            res["out.vcf"] = repr(sink.doc)
+            res["<exception>"] = exc
+            return res
+
+        base = run(None)
+        cnt = [0]
+
+        def hook(items):
+            cnt[0] += 1
+            return [items[i] for i in e.perm("ord%d" % cnt[0], len(items))]
+
+        other = run(hook)
+        if cnt[0]:
+            e.cover("a set was iterated in a solver-chosen order")
+        e.check(base["<exception>"] is None, "harness: run_whatshap raised under the stubs: %s" % base["<exception>"], None)
+        if len((base.get("recomb.tsv") or "").splitlines()) > 1:
+            e.cover("recombination event written")
+        if len((base.get("gtchanges.tsv") or "").splitlines()) > 1:
+            e.cover("genotype change written")
+        if len((base.get("reads.tsv") or "").splitlines()) > 1:
+            e.cover("read list written")
+        for k in sorted(base):
+            e.check(base[k] == other.get(k), "output %s depends on the iteration order of a set (hash seed)" % k,
+                    lambda k=k: dict(file=k, kind=_diff_kind(base[k], other.get(k)) if k.endswith(".tsv") else "content", canonical=str(base[k])[-600:], other=str(other.get(k))[-600:]))
+
+    def run_real(self, e, shape, sc):
+        key = sc.key() + repr(shape["use_ped"])
+        if key not in self._real_cache:
+            tmp = tempfile.mkdtemp(prefix="c16ph-", dir="/var/tmp")
+            try:
+                vcf_path, ped_path, bam = sc.write_real_files(tmp)
+                results = []
+                for seed in REAL_SEEDS:
+                    out = os.path.join(tmp, "o%s" % seed)
+                    os.makedirs(out)
+                    argv = ["phase", "--no-reference", "--ped", ped_path, "--output-read-list", os.path.join(out, "reads.tsv"), "--recombination-list", os.path.join(out, "recomb.tsv"),
+                            "--changed-genotype-list", os.path.join(out, "gtchanges.tsv"), "-o", os.path.join(out, "out.vcf")]
+                    if shape["use_ped"]:
+                        argv.append("--use-ped-samples")
+                    if sc.distrust:
+                        argv.append("--distrust-genotypes")
+                    r = _real_cli(argv + [vcf_path, bam], seed, tmp)
+                    res = {"<rc>": r.returncode}
+                    for f in sorted(os.listdir(out)):
+                        res[f] = _strip_cmdline(open(os.path.join(out, f)).read())
+                    if r.returncode != 0:
+                        res["<stderr>"] = r.stderr[-300:]
+                    results.append(res)
+                self._real_cache[key] = results
+            finally:
+                shutil.rmtree(tmp, ignore_errors=True)
+        results = self._real_cache[key]
+        e.check(results[0]["<rc>"] == 0, "harness: the real `whatshap phase` failed on the materialised input: %s" % results[0].get("<stderr>"), None)
+        for k in sorted(results[0]):
+            for r in results[1:]:
+                e.check(results[0][k] == r.get(k), "output %s depends on the iteration order of a set (hash seed)" % k, None)
+
+    def classify(self, shape, v):
+        info = v.get("info") or {}
+        f = info.get("file", "?")
+        if f == "gtchanges.tsv" and info.get("kind") == "rows of one record permuted":
+            return "seed_phase:changed-genotype-list:rows of one record follow the sample order:use_ped_samples=%s" % shape["use_ped"]
+        return "seed_phase:%s:%s:fam=%s:use_ped_samples=%s:distrust=%s" % (f, info.get("kind"), shape["fam"], shape["use_ped"], shape.get("distrust"))
+
+
+SUBCHECKS["seed_phase"] = SeedPhase()
